@@ -684,6 +684,8 @@ class World:
         self.get_type = {}     # attribute struct name -> gallina constant
         self.const_vals = {}   # rust constant name -> python value (int, or float for f32)
         self.penums = {}       # payload enum name -> [(variant, payload rust type or None)]
+        self.on_demand = None  # callback (type or None, fn name) -> funcinfo or None: translate a helper of the current file when first called
+        self.tried = set()
 
     def gty(self, ty, self_ty=None):
         ty = self.norm(ty, self_ty)
@@ -719,6 +721,14 @@ class World:
         if ty in self.records:
             return ty
         raise Unsupported('type %s' % ty)
+
+    def lookup(self, ty, name):
+        """the translated function (ty, name), translating it now if it is a private helper of the file being translated"""
+        f = self.funcs.get((ty, name))
+        if f is None and self.on_demand is not None and (ty, name) not in self.tried:
+            self.tried.add((ty, name))
+            f = self.on_demand(ty, name)
+        return f
 
     def known_data(self, ty):
         """error types that carry data the caller uses (translated records / enums): Result<A, E> keeps E"""
@@ -827,10 +837,10 @@ def effect_call(e, cx):
     if e[0] == 'call' and e[1][0] == 'path':
         p = e[1][1]
         f = None
-        if len(p) == 2:
-            f = cx.w.funcs.get((cx.self_ty if p[0] == 'Self' else p[0], p[1]))
-        elif len(p) == 1:
-            f = cx.w.funcs.get((None, p[0]))
+        if len(p) == 2 and (p[0] == 'Self' or p[0] == cx.self_ty or (p[0], p[1]) in cx.w.funcs):
+            f = cx.w.lookup(cx.self_ty if p[0] == 'Self' else p[0], p[1])
+        elif len(p) == 1 and p[0][0].islower() and p[0] not in cx.vars:
+            f = cx.w.lookup(None, p[0])
         if f and not f['plain'] and f['recv'] is None:
             return f, None, e[2]
     return None
@@ -1154,6 +1164,10 @@ def tr_expr(e, cx, expect=None):
                 mult = {'from_secs': 1000000000, 'from_millis': 1000000, 'from_micros': 1000, 'from_nanos': 1}[p[1]]
                 return ('%s * %d' % (atom(t), mult) if mult != 1 else t), c, 'Duration'
             ty = cx.self_ty if p[0] == 'Self' else p[0]
+            if len(p) == 2 and (p[0] == 'Self' or p[0] == cx.self_ty) and p[1][0].islower():
+                w.lookup(ty, p[1])
+            if len(p) == 1 and p[0][0].islower() and p[0] not in cx.vars:
+                w.lookup(None, p[0])
             if len(p) == 2 and (ty, p[1]) in w.funcs:
                 fi = w.funcs[(ty, p[1])]
                 if not fi['plain']:
@@ -1167,6 +1181,9 @@ def tr_expr(e, cx, expect=None):
             if len(p) == 1 and p[0] in w.newtypes:
                 t, c, _ = tr_expr(e[2][0], cx, w.newtypes[p[0]])
                 return t, c, p[0]
+            if len(p) == 2 and p[1] == 'try_from' and p[0] in INT_BITS and len(e[2]) == 1:
+                t, c, ty2 = tr_expr(e[2][0], cx)
+                return '(if %s <? %d then Some %s else None)' % (atom(t), 2 ** INT_BITS[p[0]], atom(t)), c, 'Result<%s,Error>' % p[0]
             if len(p) == 2 and p[1] == 'from' and p[0] in INT_BITS:
                 t, c, ty2 = tr_expr(e[2][0], cx)
                 return t, c, p[0]
@@ -1268,6 +1285,8 @@ def tr_expr(e, cx, expect=None):
             return ('opt_is_some %s' % atom(t)) if name == 'is_some' else 'negb (opt_is_some %s)' % atom(t), c, 'bool'
         t, c, ty = tr_expr(recv, cx)
         nty = w.norm(ty, cx.self_ty)
+        if nty and (nty == cx.self_ty or nty in w.records):
+            w.lookup(nty, name)
         if (nty, name) in w.funcs:
             fi = w.funcs[(nty, name)]
             if not fi['plain'] or fi['recv'] == 'mut':
@@ -2025,15 +2044,40 @@ def main():
             return None
 
     consts_done = set()
+    current = {}
 
-    def emit_fn(gname, rel, fn, self_ty=None, impl_re=None, key=None):
+    def on_demand(ty, name):
+        """a helper function of the file being translated, found by name (in an `impl Type` block, or free)"""
+        rel = current.get('rel')
+        if not rel:
+            return None
+        src = strip_comments(read(rel))
+        if ty is None:
+            if not re.search(r'^(?:pub(?:\([a-z]+\))?\s+)?fn\s+%s\b' % re.escape(name), src, re.M):
+                return None
+            saved = dict(current)
+            info = emit_fn('gen_%s' % name, rel, name, key=(None, name))
+            current.update(saved)
+            return info
+        for m in re.finditer(r'impl(?:<[^>]*>)?\s+%s(?:<[^>]*>)?\s*\{' % re.escape(ty), src):
+            blk = src[m.end() - 1:match_brace(src, m.end() - 1)]
+            if re.search(r'\bfn\s+%s\b' % re.escape(name), blk):
+                saved = dict(current)
+                info = emit_fn('gen_%s_%s' % (ty, name), rel, name, ty, r'impl(?:<[^>]*>)?\s+%s(?:<[^>]*>)?' % re.escape(ty), scope_text=blk)
+                current.update(saved)
+                return info
+        return None
+    w.on_demand = on_demand
+
+    def emit_fn(gname, rel, fn, self_ty=None, impl_re=None, key=None, scope_text=None):
+        current['rel'] = rel
         if rel not in consts_done:
             consts_done.add(rel)
             emit_consts(rel)          # private constants of the file (same values under any name)
 
         def thunk():
             src = strip_comments(read(rel))
-            scope = find_impl(src, impl_re) if impl_re else src
+            scope = scope_text if scope_text is not None else (find_impl(src, impl_re) if impl_re else src)
             text, info = translate_fn(w, gname, scope, fn, self_ty)
             out.append('(* %s :: %s%s *)' % (rel, (self_ty + '::') if self_ty else '', fn))
             out.append(text)
